@@ -9,6 +9,7 @@ import (
 	"runtime"
 	"strings"
 	"sync"
+	"sync/atomic"
 	"testing"
 
 	evalfilter "github.com/skx/evalfilter/v2"
@@ -41,7 +42,12 @@ type person struct {
 	Tags  []string
 	Email string
 	Meta  map[string]interface{}
+	Pat   string
 }
+
+// patCounter makes run-time patterns unique within the process: thousands of
+// distinct patterns pass through the process-wide cache of compiled regexps.
+var patCounter int64
 
 // metaPool: nested maps that many objects refer to at once. Host data that is
 // only read may be shared between goroutines and between evaluators.
@@ -60,7 +66,26 @@ var metaPool = func() []map[string]interface{} {
 
 func personFor(i int) person {
 	names := []string{"Steve", "bob", "Alice", "re: hello", "Zoë", "x"}
-	return person{Name: names[i%len(names)], Age: 10 + (i*7)%60, Tags: []string{"a", fmt.Sprint(i % 5)}, Email: fmt.Sprintf("u%d@example.com", i%9), Meta: metaPool[i%len(metaPool)]}
+	return person{Name: names[i%len(names)], Age: 10 + (i*7)%60, Tags: []string{"a", fmt.Sprint(i % 5)}, Email: fmt.Sprintf("u%d@example.com", i%9), Meta: metaPool[i%len(metaPool)], Pat: fmt.Sprintf("^u%d@", i%9)}
+}
+
+// withFreshPattern gives the object a pattern no run has used before (it
+// still matches the object's e-mail address).
+func withFreshPattern(o interface{}) interface{} {
+	n := atomic.AddInt64(&patCounter, 1)
+	pat := fmt.Sprintf("^u[0-9]@|zz%dzz", n)
+	switch x := o.(type) {
+	case person:
+		x.Pat = pat
+		return x
+	case *person:
+		x.Pat = pat
+		return x
+	case map[string]interface{}:
+		x["Pat"] = pat
+		return x
+	}
+	return o
 }
 
 // objectFor: the same data as a struct, a pointer or a map.
@@ -70,7 +95,7 @@ func objectFor(i int) interface{} {
 	case 1:
 		return &p
 	case 2:
-		return map[string]interface{}{"Name": p.Name, "Age": p.Age, "Tags": p.Tags, "Email": p.Email, "Meta": p.Meta}
+		return map[string]interface{}{"Name": p.Name, "Age": p.Age, "Tags": p.Tags, "Email": p.Email, "Meta": p.Meta, "Pat": p.Pat}
 	}
 	return p
 }
@@ -107,6 +132,9 @@ var ownScripts = []string{
 	`return Meta["deep"]["deep"]["n"] + len(Meta["also"]);`,
 	`n = 0; foreach k, v in Meta { n = n + len(string(v)); } return n;`,
 	`return string(Meta);`,
+	// patterns that only exist at run time
+	`return match(Email, Pat);`,
+	`return [match(Email, Pat), replace(Email, Pat, "<>")];`,
 }
 
 func journalWorkload(w *Workload) {
@@ -192,7 +220,7 @@ func runWorkload(w *Workload) error {
 				seq := evalfilter.New(script)
 				_ = seq.Prepare()
 				for k := 0; k < w.OwnRuns; k++ {
-					p := objectFor(g + k)
+					p := withFreshPattern(objectFor(g + k))
 					a, err := e.Execute(p)
 					if err != nil {
 						errs <- fmt.Errorf("own evaluator %d: %v", g, err)
@@ -249,13 +277,21 @@ func TestC11(t *testing.T) {
 	}()
 	rapidCheck(t, col, func(rt *rapid.T) {
 		w := &Workload{Prop: "C11", Kind: "workload", Procs: rapid.SampledFrom([]int{2, 4, 16}).Draw(rt, "procs"), Yield: rapid.Bool().Draw(rt, "yield")}
-		mode := rapid.SampledFrom([]string{"shared", "own", "both"}).Draw(rt, "mode")
-		if mode != "own" {
+		mode := rapid.SampledFrom([]string{"shared", "own", "both", "patterns"}).Draw(rt, "mode")
+		if mode == "patterns" {
+			// every goroutine feeds the process-wide regexp cache with patterns
+			// that never occurred before: well over a thousand per workload
+			for i := 0; i < 16; i++ {
+				w.Own = append(w.Own, ownScripts[len(ownScripts)-1-i%2])
+			}
+			w.OwnRuns = 50
+		}
+		if mode == "shared" || mode == "both" {
 			w.Shared = rapid.SampledFrom(sharedScripts).Draw(rt, "shared")
 			w.Sharers = rapid.IntRange(2, 16).Draw(rt, "sharers")
 			w.Calls = rapid.IntRange(20, scale(200, 500)).Draw(rt, "calls")
 		}
-		if mode != "shared" {
+		if mode == "own" || mode == "both" {
 			n := rapid.IntRange(2, 16).Draw(rt, "owners")
 			for i := 0; i < n; i++ {
 				w.Own = append(w.Own, ownScripts[gen.Uniform(rt, "own", len(ownScripts))])
